@@ -198,6 +198,21 @@ func (m *Plugin) generatePerSchema(data *codegen.Data) error {
 		}
 	}
 
+	// A schema file whose last resolver went away (removed, or moved to another schema file) still
+	// has its resolver file from the previous run. Leaving that file alone would keep the methods
+	// that were just copied into another file declared twice: regenerate it without resolvers, what
+	// is left of its code moves to the end as usual.
+	for _, src := range data.Config.Sources {
+		if src.BuiltIn {
+			continue
+		}
+		fnCase := gqlToResolverName(data.Config.Resolver.Dir(), src.Name, data.Config.Resolver.FilenameTemplate)
+		fn := strings.ToLower(fnCase)
+		if files[fn] == nil && fnCase != data.Config.Resolver.Filename && isGeneratedResolverFile(fnCase) {
+			files[fn] = &File{name: fnCase}
+		}
+	}
+
 	for _, file := range files {
 		file.imports = rewriter.ExistingImports(file.name)
 		file.RemainingSource = rewriter.RemainingSource(file.name)
@@ -333,6 +348,13 @@ func readResolverTemplate(customResolverTemplate string) string {
 		panic(err)
 	}
 	return string(contentBytes)
+}
+
+// isGeneratedResolverFile reports whether fileName exists and carries the notice this plugin writes
+// at the top of the files it regenerates (a file without it is never taken over).
+func isGeneratedResolverFile(fileName string) bool {
+	b, err := os.ReadFile(fileName)
+	return err == nil && strings.Contains(string(b), "will be automatically regenerated based on the schema")
 }
 
 func fileExists(fileName string) bool {
